@@ -15,7 +15,9 @@ Allowed(start, end, dt) == LET n == NSteps(start, end, dt) IN
 
 LenOK(e) == (e.len - 1) \in Allowed(e.start, e.end, e.dt)
 PointsOK(e) == \A k \in 1..e.len : RatClose(T(e.start, e.dt, k-1), e.tv[k], K1e9, 4)
-Failing(e) == (IF LenOK(e) THEN {} ELSE {"GridLen"}) \cup (IF PointsOK(e) THEN {} ELSE {"GridPoints"})
+\* re-assigning the end year the settings already hold (e.len2, e.end2: grid length and end year afterwards) changes nothing
+FixpointOK(e) == e.len2 = e.len /\ e.end2 = e.end1
+Failing(e) == (IF LenOK(e) THEN {} ELSE {"GridLen"}) \cup (IF PointsOK(e) THEN {} ELSE {"GridPoints"}) \cup (IF FixpointOK(e) THEN {} ELSE {"GridFixpoint"})
 
 Init == i = 1 /\ bad = {}
 Next == /\ i <= Len(Trace)
